@@ -4,8 +4,38 @@ import (
 	"bytes"
 	"fmt"
 
+	"github.com/jfrog/go-rpm"
+
 	"github.com/edutko/decipher/internal/openpgp/packet"
 )
+
+// rpmString returns the first string stored under tag, or "" when the tag is absent or
+// does not hold a non-empty string array. (go-rpm's StringByTag asserts the value's type
+// and indexes its first element without checking either, so a header whose tag carries
+// another type or a zero count makes it panic.)
+func rpmString(idx rpm.IndexEntries, tag int) string {
+	e := idx.IndexByTag(tag)
+	if e == nil {
+		return ""
+	}
+	if s, ok := e.Value.([]string); ok && len(s) > 0 {
+		return s[0]
+	}
+	return ""
+}
+
+// rpmBytes returns the binary value stored under tag, or nil when the tag is absent or
+// holds a value of another type.
+func rpmBytes(idx rpm.IndexEntries, tag int) []byte {
+	e := idx.IndexByTag(tag)
+	if e == nil {
+		return nil
+	}
+	if b, ok := e.Value.([]byte); ok {
+		return b
+	}
+	return nil
+}
 
 func rpmSignatureAttributes(sig []byte) []Attribute {
 	var attrs []Attribute
